@@ -476,8 +476,10 @@ def obligation_smt2(env, ob: Obligation, extra_fuel=0, negate=True, sliced=False
     insts = spec_instances(env, terms, extra_fuel)
     # facts of the fixed axiom base (section 3.3) that are instantiated on the terms present
     ax = env.axiom_instances(terms + insts) if hasattr(env, "axiom_instances") else []
+    from . import seqnorm
     from .seqnorm import rewrite
 
+    del seqnorm.BRIDGES[:]
     s = z3.Solver()
     for t in ob.pc:
         s.add(rewrite(t))
@@ -486,5 +488,10 @@ def obligation_smt2(env, ob: Obligation, extra_fuel=0, negate=True, sliced=False
     for t in ax:
         s.add(t)
     g = rewrite(ob.goal)
+    seen_b = set()
+    for b in list(seqnorm.BRIDGES):
+        if b.get_id() not in seen_b:
+            seen_b.add(b.get_id())
+            s.add(b)
     s.add(z3.Not(g) if negate else g)
     return "(set-logic ALL)\n" + s.to_smt2()
